@@ -385,7 +385,7 @@ func (p *Path) sliceInstr(i *ssa.Slice) Val {
 
 // elemAddr: address of element k of slice value s
 func elemAddr(s, k string) string {
-	return fmt.Sprintf("(idx (sl.arr %s) (+ (sl.off %s) %s))", s, s, k)
+	return fmt.Sprintf("(eaddr %s %s)", s, k)
 }
 
 // appendOp implements r = append(s, t...) where t is a slice or a string.
